@@ -9,23 +9,26 @@ MODEL_IS_SPEC = False
 RULE = ("(a) small JSON values (<= 7 nodes, object/array mixes, scalars and empty containers): EVERY outcome of the random choices of the descendant traversal is enumerated on the real code "
         "(random.randrange / random.shuffle replaced by an enumerating chooser); each outcome is compared, script by script, with the choice-script model, checked against the Coq "
         "predicate valid_order, every outcome must be in the Coq enumeration of all valid orders, and the set of container orders produced must equal the set of container orders of that enumeration (exhaustiveness: scalars are visited as soon as their turn comes, which cannot change any result); (b) random queries x values in nondeterministic mode with "
-        "random seeds: the result must be a permutation of the deterministic RFC nodelist; (c) descendant queries with name / index / slice selectors on small values: every outcome of env.find is enumerated and the set of results must equal the set obtained by applying the selectors along every valid order; non-trivial = value has an object with >= 2 members or nested containers; distinct = distinct (value, script)")
+        "random seeds: the result must be a permutation of the deterministic RFC nodelist; (c) descendant queries with name / index / slice selectors on small values: every outcome of env.find is enumerated and the set of results must equal the set obtained by applying the selectors along every valid order; (d) whole queries whose selectors shuffle too (wildcard / filter on objects, child and descendant segments, several segments, queries nested in filters): every outcome of find() is enumerated; the complete set must equal the Coq enumeration nd_results of what RFC 9535 permits, and outcome by outcome the model m_find_nd, run on the scripts of that outcome regrouped per random episode (one shuffle of a selector, one traversal) and per segment, must return the same nodelist; non-trivial = value has an object with >= 2 members or nested containers; distinct = distinct (value, script)")
 TRUSTED_BASE = [
     "Coq 8.16.1 kernel; theorems closed under the global context",
     "Spec/Nondet.v: valid_order / all_orders as a reading of RFC 9535 2.5.2.2 (parent before child, array elements in order, object members free)",
     "Model/NdVisit.v hand-written from _nondeterministic_visit / _nondeterministic_children; tied to the code script by script",
+    "Model/NdEval.v hand-written from WildcardSelector.resolve / FilterSelector.resolve / the segments' resolve in nondeterministic mode: every random episode takes its own script from a supply; queries nested in filters are evaluated deterministically (only their truth value, count or single value is used); tied to the code outcome by outcome, the harness regrouping the recorded choices per episode (attribution through the callers' frames: self / node / root; when the frames do not have that shape only the outcome sets are compared)",
+    "Spec/NondetQ.v: nd_permitted (relation, what the theorems are about) and nd_results (enumeration, what the check compares outcome sets with); their agreement is not proved, the enumeration is built from all_orders and all permutations",
     "tools/vlib/chooser.py replaces the random module's functions inside the harness process (no hook in the library)",
     "extraction (ExtrOcamlBasic only) and the OCaml integer driver",
 ]
 ASSUMPTIONS = ["random.randrange / random.shuffle may return any value of their range (that is what 'every outcome' means)"]
-TECHNIQUE = "choice-script model of the traversal; Coq proofs that every script yields a valid order (simulation by a frontier-of-queues relation, potential function for the loop bound) and that every valid order is reached by a constructed script; Coq enumeration of all valid orders; exhaustive enumeration of the real code's random outcomes on small inputs compared per script and as sets"
+TECHNIQUE = "choice-script model of the traversal and of whole-query evaluation; Coq proofs that every script yields a valid order (simulation by a frontier-of-queues relation, potential function for the loop bound) and that every valid order is reached by a constructed script; Coq enumeration of all valid orders; exhaustive enumeration of the real code's random outcomes on small inputs compared per script and as sets"
 LEVEL = "proof"
 LEVEL_TEXT = ("Props/C17.v: C17_valid - for every value, depth limit and script of random choices, whatever the traversal model returns is a valid order (every node once, parents first, "
               "array elements in index order); C17_exhaustive - conversely, for every valid order of a value within the depth limit there is a script on which the traversal visits the containers in exactly "
               "that order (the script is constructed: generator index for every randrange, permutation number for every shuffle), and C17_exhaustive_results - hence every nodelist a descendant segment may "
-              "produce is produced; C17_loop_terminates; C17_frontier_sound. NOT proved (partial): the statement for whole queries (wildcard / filter selectors also shuffle object members): decided by "
-              "correspondence; for every small value the real code's complete outcome set equals the specification's set of container orders, script by script equal to the model.")
-LEVEL_NOTE = "Partial for whole queries. Trusted: Coq kernel; Spec/Nondet.v; Model/NdVisit.v tied script by script; chooser; extraction and driver."
+              "produce is produced; C17_loop_terminates; C17_frontier_sound; C17_valid_at / C17_exhaustive_at - both from any node of a value (relocation). Whole queries (the selectors' own shuffles, every segment, nested "
+              "filters; every registry, every well-typed query): C17_query_valid - for every supply of scripts the nodelist find() returns is one RFC 9535 permits (nd_permitted); C17_query_same_nodes - it is a permutation of the "
+              "deterministic RFC nodelist; C17_query_exhaustive - every permitted nodelist is returned for some supply. For every small value the real code's complete outcome set equals the specification's, outcome by outcome equal to the model.")
+LEVEL_NOTE = "Trusted: Coq kernel; Spec/Nondet.v; Model/NdVisit.v tied script by script; chooser; extraction and driver."
 norm_reply = harness.norm_reply
 
 
